@@ -205,6 +205,10 @@ pub struct CodegenContext {
     /// How deeply macro invocations are currently nested, used to detect runaway macro recursion
     macro_depth: usize,
 
+    /// Set once the nesting limit was hit in the current pass. The pass has failed by then, and expanding the
+    /// remaining invocations of a macro that invokes itself several times would take 2^32 expansions or more.
+    macro_depth_exceeded: bool,
+
     /// How many (nested) blocks are currently being emitted to the temporary '$dummy' segment
     dummy_segment_depth: usize,
 
@@ -256,6 +260,7 @@ impl CodegenContext {
             next_macro_scope_id: 0,
             import_stack: vec![],
             macro_depth: 0,
+            macro_depth_exceeded: false,
             dummy_segment_depth: 0,
             test_elements: vec![],
             source_map: SourceMap::default(),
@@ -343,6 +348,7 @@ impl CodegenContext {
     fn next_pass(&mut self) {
         self.pass_idx += 1;
         self.next_macro_scope_id = 0;
+        self.macro_depth_exceeded = false;
 
         log::trace!("\n* NEXT PASS ({}) *", self.pass_idx);
         self.segments.values_mut().for_each(|s| s.reset());
@@ -1063,7 +1069,12 @@ impl CodegenContext {
                     self.next_macro_scope_id += 1;
 
                     // A macro that keeps invoking itself would otherwise recurse until the stack overflows
+                    if self.macro_depth_exceeded {
+                        // Already reported in this pass
+                        return Ok(());
+                    }
                     if self.macro_depth >= MAX_MACRO_DEPTH {
+                        self.macro_depth_exceeded = true;
                         return Err(Diagnostic::error()
                             .with_message(format!(
                                 "macro invocations are nested more than {} levels deep (does macro '{}' invoke itself?)",
